@@ -87,6 +87,13 @@ func drawWriterPlan(t *simrt.Tape, maxN int, big bool) writerPlan {
 		lo, hi = 900, 2500
 	}
 	p.Recs = genRecs(t, total, 0, p.Kind == wkFastq || (p.Kind == wkCSV && p.CSVCols&8 != 0 && t.Choose(2) == 1), lo, hi)
+	if p.Kind == wkJSON {
+		for i := range p.Recs {
+			if t.Choose(4) == 3 {
+				p.Recs[i].Def = []string{`a "quoted" word`, "5' <-> 3' & more", "tab\there", "caf\u00e9 au lait", `back\\slash`}[t.Choose(5)]
+			}
+		}
+	}
 	if p.Kind == wkCSV && p.CSVCols&2 != 0 {
 		// definitions that need quoting
 		for i := range p.Recs {
@@ -386,6 +393,30 @@ func checkWriterOutput(rc *RunCtx, prop string, p writerPlan, raw []byte) {
 		}
 		if !equalStrings(got, ids) {
 			rc.Violate(prop+"/json/records-differ"+arrivalShape(p), "ids in the array: %s; arrival %s sizes %v", firstDiff(got, ids), permString(p.Arrival), p.Sizes)
+			return
+		}
+		// every object carries its record: nucleotides, qualities, annotations, definition
+		gotFull, wantFull := []string{}, []string{}
+		for _, o := range arr {
+			g := irec{ID: fmt.Sprint(o["id"]), Annot: map[string]string{}}
+			if v, ok := o["sequence"]; ok {
+				g.Seq = fmt.Sprint(v)
+			}
+			if v, ok := o["qualities"]; ok {
+				g.Qual = fmt.Sprint(v)
+			}
+			if a, ok := o["annotations"].(map[string]any); ok {
+				for k, v := range a {
+					g.Annot[k] = fmt.Sprint(v)
+				}
+			}
+			gotFull = append(gotFull, g.canon())
+		}
+		for _, r := range p.Recs {
+			wantFull = append(wantFull, irecOf(r).canon())
+		}
+		if !equalStrings(gotFull, wantFull) {
+			rc.Violate(prop+"/json/objects-differ"+arrivalShape(p), "content of the objects: %s", firstDiff(gotFull, wantFull))
 		}
 	case wkCSV:
 		if p.N == 0 {
